@@ -1,6 +1,7 @@
 package main
 
 import (
+	"runtime"
 	"fmt"
 	"os"
 	"sort"
@@ -244,6 +245,56 @@ func c06Globals(res *lib.Result, tier string, root *lib.Rng) error {
 				if strings.Join(got, " ") != strings.Join(want, " ") {
 					res.AddViolation("impl-vs-spec", fmt.Sprintf("references of the global %s: [%s], its occurrences are [%s]", name, strings.Join(got, " "), strings.Join(want, " ")), caseText, false)
 				}
+			}
+		}
+		sess.Close()
+		os.RemoveAll(dir)
+	}
+	// more files than the reference search has workers (NumCPU+2): every file's occurrence must be found once
+	nBig := 2
+	if tier == "thorough" {
+		nBig = 20
+	}
+	for wi := 0; wi < nBig; wi++ {
+		nf := runtime.NumCPU() + 6 + wi
+		files := map[string]string{"a00.lua": "SharedG = 1\n"}
+		var want []string
+		want = append(want, "a00.lua:0:0")
+		for k := 1; k <= nf; k++ {
+			f := fmt.Sprintf("u%02d.lua", k)
+			files[f] = strings.Repeat("\n", k%3) + "print(SharedG)\n"
+			want = append(want, fmt.Sprintf("%s:%d:6", f, k%3))
+		}
+		sort.Strings(want)
+		dir := lib.ScratchDir(fmt.Sprintf("c06b%d", wi))
+		if err := lib.WriteWorkspace(dir, files); err != nil {
+			return err
+		}
+		sess, err := lib.StartSession(dir, lib.AllChecksOptions())
+		if err != nil {
+			os.RemoveAll(dir)
+			return err
+		}
+		sess.DidOpen("a00.lua", files["a00.lua"])
+		sess.Sync()
+		for rep := 0; rep < 3; rep++ {
+			caseText := fmt.Sprintf("references of SharedG at a00.lua 0:0 in a workspace of %d files (a00.lua: 'SharedG = 1', uNN.lua: 'print(SharedG)')", nf+1)
+			lib.Breadcrumb("C06 " + caseText)
+			locs, err := sess.References("a00.lua", 0, 0, true)
+			if err != nil {
+				res.AddViolation("crash-or-timeout", err.Error(), caseText, false)
+				break
+			}
+			var got []string
+			for _, l := range locs {
+				got = append(got, fmt.Sprintf("%s:%d:%d", sess.Rel(l.URI), l.Range.Start.Line, l.Range.Start.Character))
+			}
+			sort.Strings(got)
+			res.Count(fmt.Sprintf("big%d/%d", wi, rep), true)
+			res.Dist("many-files")
+			if strings.Join(got, " ") != strings.Join(want, " ") {
+				res.AddViolation("impl-vs-spec", fmt.Sprintf("references of a global used in %d files: got %d locations [%s]", nf, len(got), lib.Trunc(strings.Join(got, " "), 600)), caseText, false)
+				break
 			}
 		}
 		sess.Close()
